@@ -139,6 +139,32 @@ Section Final.
       repeat (apply andb_true_iff in H; destruct H as [H ?]); try discriminate; auto.
   Qed.
 
+  Lemma inclb_incl a b : inclb a b = true -> incl a b.
+  Proof.
+    unfold inclb. rewrite forallb_forall. intros H x Hx. apply memn_In. now apply H.
+  Qed.
+  Lemma has_pos_spec l : has_pos n l = true -> exists v, In v l /\ v < n.
+  Proof.
+    unfold has_pos. rewrite existsb_exists. intros [v [Hv Hl]]. exists v. split; auto.
+    now apply Nat.ltb_lt.
+  Qed.
+  Lemma wfsb_wfs e : forall r, wfsb n r e = true -> wfs W r e.
+  Proof.
+    induction e; intros r H; cbn [wfsb wfs] in *; auto;
+      repeat match goal with
+             | H : _ && _ = true |- _ => apply andb_true_iff in H; destruct H
+             end;
+      repeat split; auto using inclb_incl, has_pos_spec.
+  Qed.
+  Lemma pre_okb_pre_ok e : pre_okb n e = true -> pre_ok W e.
+  Proof.
+    induction e; intros H; cbn [pre_okb pre_ok] in *; auto;
+      repeat match goal with
+             | H : _ && _ = true |- _ => apply andb_true_iff in H; destruct H
+             end;
+      repeat split; auto using wfsb_wfs, has_pos_spec.
+  Qed.
+
   Theorem optimize_sound e c0 : x_refs c0 = [] -> okctx W c0 -> pre_ok W e ->
     den W c0 (optimize e) = den W c0 (rrc e).
   Proof.
